@@ -3,12 +3,42 @@ from ..rules import crash, iface, tree, gen, gen2, handlers
 from . import C09
 
 ID = 'C43'
-TECHNIQUE = 'whole-package resolved-name lints (attribute/method/module resolution through the class graph), format-arity and table-key checks, dispatch exhaustiveness by finite-kind evaluation, dataflow pairing rules whose violation is an internal error'
+TECHNIQUE = ('whole-package resolved-name lints (attribute/method/module resolution through the class graph), format-arity and table-key checks, dispatch exhaustiveness by finite-kind evaluation, dataflow pairing rules whose violation is an internal error; '
+             'coupled-state invariant of the scanner (transition-method discovery, guard truth table over the counter abstraction {0, 1, >=2}, sole-writer check); '
+             'writer/reader agreement on the payload (.args shape, attributes) of nominally typed compiler exceptions')
 DECIDES = ('L1: every self.method(...) call resolves in the inheritance cone; L2: every Module.attr reference to a Cython module resolves; L3: literal %-format templates match their argument tuples/dicts; '
            'L4: directive keys are known to Options.py; L5: parse_directive_value handles every reachable kind of directive type with a return or ValueError; '
            'I1/I2: every utility section loaded or required exists; V1/V2: transform handlers name existing node classes and always return a node; HARG: optimisation handlers never index past their argument list; '
-           'G2/G4: temps are released and labels placed (violations raise internal TEMPGUARD errors / produce C that does not compile); LEX1: leading-zero decimal literals are rejected before conversion.')
-NOT_DECIDED = '"accepts every valid Python program" and crashes that depend on run-time values of the compiled program or on the C compiler.'
+           'G2/G4: temps are released and labels placed (violations raise internal TEMPGUARD errors / produce C that does not compile); LEX1: leading-zero decimal literals are rejected before conversion; '
+           'C43-COUPLE (rules/sC43.py): the scanner counter whose 0<->1 transitions install / remove keywords (async_enabled <-> async/await in keywords, discovered from the transition methods) is written only by '
+           'its transition methods and as the constant 0 over a fresh keyword table without those keys; the increment method installs the keys on 0->1, the decrement method removes the same keys exactly on 1->0; '
+           'C43-EXCSHAPE: every .args[i] / .args unpacking / attribute read on a variable of nominally known exception class (except <Class> as e; elements of held-error lists from Errors.hold_errors()/held_errors() '
+           'or a context manager yielding them, e.g. Scanning.tentatively_scan) fits the payload the __init__ chain of the class establishes.')
+NOT_DECIDED = ('"accepts every valid Python program" and crashes that depend on run-time values of the compiled program or on the C compiler; the pairing of enter_async()/exit_async() calls in the parser; '
+               'exception objects whose class is not nominally visible (parameters, results of calls) and the *meaning* of each .args position.')
+ASSUMPTIONS = [
+    'C43-EXCSHAPE: the elements of a held-error list are instances of the classes Errors constructs and hands to report_error() (CompileError), or of subclasses, whose own __init__ is checked too',
+    'C43-COUPLE: the counter is a nesting depth (never negative); the value 2 of the abstraction stands for every value >= 2, guards that compare with larger constants are reported as undecided (info)',
+]
+
+MUTATIONS = [
+    # (file, edit, expected rule / observed) -- tried on /tmp/strengthen/G9/scr
+    ('Cython/Compiler/Scanning.py', 'seed C43a: nested scanner copies parent_scanner.async_enabled instead of calling enter_async()', 'C43-COUPLE: caught (write in __init__)'),
+    ('Cython/Compiler/Scanning.py', 'enter_async: `if self.async_enabled == 1` -> `== 2`', 'C43-COUPLE enter: caught'),
+    ('Cython/Compiler/Scanning.py', "exit_async: `del self.keywords['await']` removed", 'C43-COUPLE keys: caught'),
+    ('Cython/Compiler/Scanning.py', 'exit_async: `if not self.async_enabled` -> `if self.async_enabled`', 'C43-COUPLE exit + exit-early: caught'),
+    ('Cython/Compiler/Parsing.py', 'p_def_statement: `s.enter_async()` -> `s.async_enabled += 1`', 'C43-COUPLE external write: caught'),
+    ('Cython/Compiler/Scanning.py', "py_reserved_words gains 'async'", 'C43-COUPLE fresh-table: caught'),
+    ('Cython/Compiler/Errors.py', 'seed C43b: CompileError.__init__ no longer sets self.args = (position, message)', 'C43-EXCSHAPE: caught (Parsing.p_patterns e.args[1], Parsing.p_pattern errors[0].args[1])'),
+    ('Cython/Compiler/Errors.py', 'CompileError.__init__: `self.args = (position, message)` -> `self.args = (message,)`', 'C43-EXCSHAPE: caught'),
+    ('Cython/Compiler/Parsing.py', 'p_patterns: `s.error(e.args[1], pos=e.args[0])` -> `e.args[2]`', 'C43-EXCSHAPE: caught'),
+    ('Cython/Compiler/Errors.py', 'CompileError.__init__: self.message_only renamed self.message', 'C43-EXCSHAPE (Nodes.MemoryViewSliceTypeNode.analyse e.message_only): caught'),
+    # behaviour preserving (all silent)
+    ('Cython/Compiler/Scanning.py', 'enter_async: test on the old value before the increment (`if self.async_enabled == 0: ...; self.async_enabled += 1`), keys installed with self.keywords.update({...})', None),
+    ('Cython/Compiler/Scanning.py', 'exit_async: `if self.async_enabled == 0:` / `< 1`, keys removed with self.keywords.pop()', None),
+    ('Cython/Compiler/Errors.py', 'CompileError.__init__: `Exception.__init__(self, position, message)` and no explicit self.args', None),
+    ('Cython/Compiler/Parsing.py', 'p_pattern: `first = errors[0]; return Nodes.ErrorNode(first.args[0], what=first.args[1])`', None),
+]
 
 _D = 'dead code: slice assignment to memoryviews is routed through MemoryCopyNode, MemoryViewSliceNode.generate_assignment_code is never reached; '
 EXEMPT = {
@@ -19,7 +49,8 @@ EXEMPT = {
 
 
 def run(ctx):
-    from ..rules import scopeapi, crash2
+    from ..rules import scopeapi, crash2, sC43
     return [crash.rule_L1(ctx), crash.rule_L2(ctx), crash.rule_L3(ctx), crash.rule_L4(ctx), crash.rule_L5(ctx), crash.rule_L7(ctx),
             iface.rule_I1(ctx), iface.rule_I2(ctx), tree.rule_V1_visit(ctx), tree.rule_V2(ctx), handlers.rule_arg_guards(ctx),
-            gen2.rule_G2(ctx), gen.rule_G4(ctx), C09.rule_leading_zero(ctx), scopeapi.rule_L8(ctx), crash2.rule_L9(ctx), crash2.rule_L10(ctx)]
+            gen2.rule_G2(ctx), gen.rule_G4(ctx), C09.rule_leading_zero(ctx), scopeapi.rule_L8(ctx), crash2.rule_L9(ctx), crash2.rule_L10(ctx),
+            sC43.rule_COUPLE(ctx), sC43.rule_EXCSHAPE(ctx)]
